@@ -6,10 +6,10 @@ import YowsupVerif.Lemmas.E2ETokQuiesce
 namespace Yow.E2E
 
 section
-variable {accts : List Acct} {groups : List (Nat × List Acct)}
+variable {ex : Bool} {accts : List Acct} {groups : List (Nat × List Acct)}
 
 theorem restart_TInv (hw : WFConfig accts groups) {s : Sys} {a : Acct}
-    (h : TInv accts groups s) (hall : Allowed s (.restart a) = true) : TInv accts groups (step s (.restart a)) := by
+    (h : TInv ex accts groups s) (hall : Allowed s (.restart a) = true) : TInv ex accts groups (step s (.restart a)) := by
   obtain ⟨hA, hT⟩ := h
   refine ⟨step_inv hA hall, ?_⟩
   simp only [Allowed, Bool.and_eq_true] at hall
